@@ -321,8 +321,18 @@ func buildOverlay(pcs []*PkgContracts) (map[string][]byte, error) {
 		// prelude
 		var sb strings.Builder
 		fmt.Fprintf(&sb, "package %s\n\n", pc.PkgName)
+		specText := strings.Join(pc.Specs, "\n")
 		for _, im := range pc.Imports {
-			fmt.Fprintf(&sb, "import %s\n", im)
+			// only imports the spec functions actually use (an unused import would make the package ill-typed)
+			f := strings.Fields(im)
+			path := strings.Trim(f[len(f)-1], "\"")
+			name := path[strings.LastIndex(path, "/")+1:]
+			if len(f) == 2 {
+				name = f[0]
+			}
+			if strings.Contains(specText, name+".") {
+				fmt.Fprintf(&sb, "import %s\n", im)
+			}
 		}
 		sb.WriteString(preludeSrc)
 		for _, s := range pc.Specs {
